@@ -78,16 +78,15 @@ fn repeat(child: Re, lo: usize, hi: usize) -> Result<Re, String> {
     match (lo, hi) {
         (0, usize::MAX) => Ok(Re::Star(Box::new(child))),
         (1, usize::MAX) => Ok(Re::Plus(Box::new(child))),
-        (lo, usize::MAX) if lo <= 8 => { let mut v = vec![child.clone(); lo - 1]; v.push(Re::Plus(Box::new(child))); Ok(seq_keep(v)) }
+        (lo, usize::MAX) if lo <= 8 => { let mut v = vec![child.clone(); lo - 1]; v.push(Re::Plus(Box::new(child))); Ok(seq(v)) }
         (lo, hi) if lo <= hi && hi <= 8 => {
             let mut v = vec![child.clone(); lo];
             for _ in lo..hi { v.push(Re::Alt(Box::new(child.clone()), Box::new(Re::Eps))); }
-            Ok(seq_keep(v))
+            Ok(seq(v))
         }
         _ => Err(format!("repetition {{{lo},{hi}}} is outside the supported shapes")),
     }
 }
-fn seq_keep(parts: Vec<Re>) -> Re { seq(parts) }
 
 fn hir_to_re(h: &regex_syntax::hir::Hir) -> Result<Re, String> {
     use regex_syntax::hir::{Class, HirKind};
